@@ -291,6 +291,14 @@ def stepLine (d : DState) (n : Nat) (line : String) : IO (DState × List String)
             (match (nameIdx Point.name f.pts (X nm)).bind fun j => (atIdx f.pts j).bind fun p => .ok (j, p) with
              | .ok (j, p) => .ok { s with frames := s.frames.set i { f with pts := f.pts.set j { p with x := (parseF x).getD 0 } } }
              | .throw e => .throw e s | .ub k => .ub k)
+          | ["ptnname", old, nm] =>
+            (match (nameIdx Point.name f.pts (X old)).bind fun j => (atIdx f.pts j).bind fun p => .ok (j, p) with
+             | .ok (j, p) => .ok { s with frames := s.frames.set i { f with pts := f.pts.set j (p.setName (X nm)) } }
+             | .throw e => .throw e s | .ub k => .ub k)
+          | ["chnname", k, old, nm] =>
+            (match (atIdx f.subs (parseNat! k)).bind fun sf => (nameIdx Channel.name sf (X old)).bind fun j => (atIdx sf j).bind fun c => .ok (sf, j, c) with
+             | .ok (sf, j, c) => .ok { s with frames := s.frames.set i { f with subs := f.subs.set (parseNat! k) (sf.set j (c.setName (X nm))) } }
+             | .throw e => .throw e s | .ub k => .ub k)
           | ["ch", k, j, x] =>
             (match (atIdx f.subs (parseNat! k)).bind fun sf => (atIdx sf (parseNat! j)).bind fun c => .ok (sf, c) with
              | .ok (sf, c) => .ok { s with frames := s.frames.set i { f with subs := f.subs.set (parseNat! k) (sf.set (parseNat! j) { c with v := (parseF x).getD 0 }) } }
